@@ -175,12 +175,33 @@ def prepare_overlay(spec):
 
 
 def step_harness(spec, tier, seed, log, race=False, extra_env=None):
-    """Run the Go harness in the package under test. Returns the parsed result dict or None."""
-    h = spec.get("harness")
-    if not h:
-        return {"evaluations": 0, "distinct_nontrivial": 0, "findings": [], "samples": [], "distribution": {}, "notes": [], "skipped": []}
+    """Run every Go harness of the property; merge the results. None if any of them produced no result."""
+    hs = spec.get("harness")
+    merged = {"evaluations": 0, "distinct_nontrivial": 0, "findings": [], "samples": [], "distribution": {}, "notes": [],
+              "skipped": [], "model_calls": 0, "go_test_rc": 0, "go_test_tail": "", "wall_s": 0}
+    if not hs:
+        return merged
+    if isinstance(hs, dict):
+        hs = [hs]
+    for h in hs:
+        res = step_harness_one(spec, h, tier, seed, log, race, extra_env)
+        if res is None:
+            return None
+        for k in ("evaluations", "distinct_nontrivial", "model_calls", "wall_s"):
+            merged[k] += res.get(k) or 0
+        for k in ("findings", "samples", "notes", "skipped"):
+            merged[k] += res.get(k) or []
+        for k, v in (res.get("distribution") or {}).items():
+            merged["distribution"][k] = merged["distribution"].get(k, 0) + v
+        if res.get("go_test_rc"):
+            merged["go_test_rc"] = res["go_test_rc"]
+        merged["go_test_tail"] += res.get("go_test_tail", "")
+    return merged
+
+
+def step_harness_one(spec, h, tier, seed, log, race=False, extra_env=None):
     ov = prepare_overlay(spec)
-    outp = os.path.join(CACHE, f"harness_{spec['id']}_{tier}_{os.getpid()}.json")
+    outp = os.path.join(CACHE, f"harness_{spec['id']}_{h['test']}_{tier}_{os.getpid()}.json")
     if os.path.exists(outp):
         os.remove(outp)
     env = dict(GOENV, VERIF_TIER=tier, VERIF_SEED=str(seed), VERIF_OUT=outp,
@@ -383,9 +404,10 @@ def setup():
         print("\n".join(log))
     # warm the Go build cache for the harness packages
     for prop, spec in PROPS.items():
-        h = spec.get("harness")
-        if not h:
-            continue
+      hs = spec.get("harness") or []
+      if isinstance(hs, dict):
+        hs = [hs]
+      for h in hs:
         ov = prepare_overlay(spec)
         cmd = ["go", "test", "-count=1", "-vet=off", "-tags", "verif", "-modfile=" + os.path.join(CACHE, "repo.go.mod"),
                "-overlay=" + ov, "-run", "^$"]
